@@ -1,7 +1,6 @@
 package props
 
 import (
-	"bytes"
 	"encoding/json"
 	"fmt"
 	"os"
@@ -356,7 +355,7 @@ func checkOverride(cfg *nfpm.Config, vs *vlist) {
 		// compare the entries relevant to this format, in order
 		want.Contents = filterContents(want.Contents, f)
 		got.Contents = filterContents(got.Contents, f)
-		if has {
+		if has && ov != nil {
 			for _, c := range info.Contents {
 				if c.Packager != "" && c.Packager != f {
 					vs.add("C13.foreign-content", f, "effective contents for %s include %s tagged for %s", f, c.Destination, c.Packager)
@@ -482,12 +481,13 @@ func TestC13(t *testing.T) {
 	}
 	var rc OverrideCase
 	if replayCase(&rc) {
-		cfg, err := nfpm.ParseWithEnvMapping(strings.NewReader(rc.YAML), noEnv)
-		if err != nil {
-			t.Fatalf("replay: %v", err)
-		}
+		cfg, err := parseText(rc.YAML, noEnv)
 		var vs vlist
-		checkOverride(&cfg, &vs)
+		if err != nil {
+			vs.add("C13.yaml-rejected", "", "generated configuration does not parse: %v", err)
+		} else {
+			checkOverride(&cfg, &vs)
+		}
 		st.Record(&rc, true, "replay")
 		st.Report(t, &rc, vs)
 		return
@@ -541,8 +541,15 @@ func TestC13(t *testing.T) {
 			}
 		}
 		nset := 0
+		nullBlocks := 0
 		for _, f := range AllFormats {
 			if rapid.IntRange(0, 2).Draw(rt, "ov?"+f) == 0 {
+				if rapid.IntRange(0, 5).Draw(rt, "ov.null?"+f) == 0 {
+					// a block that holds nothing (`apk:` followed only by comments, as in the reference configuration of
+					// the documentation): YAML null, i.e. no override for that format
+					cfg.Overrides[f] = nil
+					nullBlocks++
+				}
 				continue
 			}
 			ov := &nfpm.Overridables{}
@@ -558,12 +565,12 @@ func TestC13(t *testing.T) {
 			}
 			cfg.Overrides[f] = ov
 		}
-		via := rapid.Bool().Draw(rt, "via-yaml")
+		via := rapid.Bool().Draw(rt, "via-yaml") || nullBlocks > 0 // a null block only exists in a document
 		oc := &OverrideCase{YAML: renderConfigYAML(&cfg), ViaYAML: via}
 		use := &cfg
 		var vs vlist
 		if via {
-			parsed, err := nfpm.ParseWithEnvMapping(bytes.NewReader([]byte(oc.YAML)), noEnv)
+			parsed, err := parseText(oc.YAML, noEnv)
 			if err != nil {
 				vs.add("C13.yaml-rejected", "", "generated configuration does not parse: %v", err)
 			} else {
@@ -576,6 +583,9 @@ func TestC13(t *testing.T) {
 		labels := []string{fmt.Sprintf("override-blocks:%d", len(cfg.Overrides))}
 		if via {
 			labels = append(labels, "via-yaml")
+		}
+		if nullBlocks > 0 {
+			labels = append(labels, "null-override-block")
 		}
 		st.Record(oc, nset > 0, labels...)
 		st.Report(rt, oc, vs)
